@@ -1100,7 +1100,8 @@ def infer_base_unit(
 
     for unit_name, power in original_units.items():
         candidates = registry.parse_unit_name(unit_name)
-        assert len(candidates) == 1
+        # A name can have more than one reading (dtex: the unit itself or
+        # deci + tex). Take the first one, like the registry does in get_name.
         _, base_unit, _ = candidates[0]
         d[base_unit] += power
 
